@@ -105,6 +105,12 @@ fn ts_oracle(doc: &[u8]) -> String {
             starts.clear();
         }
     }
+    // character data running to the end of the input is a text event too
+    for &s in &starts {
+        if s < doc.len() && doc.len() - s <= 48 {
+            spans.push(&doc[s..]);
+        }
+    }
     spans.sort_unstable();
     spans.dedup();
     let mut out = Vec::new();
@@ -203,14 +209,15 @@ fn escape_canon(s: &str) -> Vec<u8> {
 enum Style {
     /// exactly what s3s writes
     Canon,
-    /// any form an XML writer may choose: numeric references, CDATA sections, comments / PIs in between,
-    /// `>` `'` `"` left alone, CR as `&#13;`
+    /// entity and character references chosen freely, `'` `"` left alone, CR as `&#13;`
     Free,
+    /// additionally CDATA sections and comments / PIs inside character data
+    Wild,
 }
 
 const PIECES: [&str; 34] = [
     "a", "b", "key", "photos/2024/img.jpg", " ", "  ", "\t", "\n", "<", ">", "&", "'", "\"", "é", "中", "😀", "\u{7f}",
-    "]]>", "&amp;", "&#65;", "<!--", "-->", "<![CDATA[", "?>", "x y", "0", "-1", "true", "=", "/", "\u{fffd}", "\u{1}",
+    "]]>", "&amp;", "&#65;", "<!--", "-->", "<![CDATA[", "?>", "x y", "0", "-1", "true", "=", "/", "\u{fffd}", "\u{e000}",
     "\r", "\r\n",
 ];
 
@@ -247,7 +254,7 @@ fn text_nodes(rng: &mut Rng, s: &str, style: Style) -> Vec<Node> {
         match rng.below(12) {
             0 if (c as u32) != 0 => out.extend_from_slice(format!("&#{};", c as u32).as_bytes()),
             1 if (c as u32) != 0 => out.extend_from_slice(format!("&#x{:X};", c as u32).as_bytes()),
-            2 => {
+            2 if style == Style::Wild => {
                 // a CDATA section for a run of characters (must not contain "]]>")
                 let n = rng.range(1, 4) as usize;
                 let run: String = chars[i..(i + n).min(chars.len())].iter().collect();
@@ -261,7 +268,7 @@ fn text_nodes(rng: &mut Rng, s: &str, style: Style) -> Vec<Node> {
                 i += run.chars().count();
                 continue;
             }
-            3 => {
+            3 if style == Style::Wild => {
                 out.extend_from_slice(rng.pick(&[&b"<!-- c -->"[..], b"<!---->", b"<?pi x?>", b"<!-- <b> & -->"]));
                 continue_char(&mut out, c);
             }
@@ -269,7 +276,7 @@ fn text_nodes(rng: &mut Rng, s: &str, style: Style) -> Vec<Node> {
         }
         i += 1;
     }
-    if s.is_empty() && rng.chance(1, 3) {
+    if s.is_empty() && style == Style::Wild && rng.chance(1, 3) {
         out.extend_from_slice(rng.pick(&[&b"<![CDATA[]]>"[..], b"<!-- empty -->"]));
     }
     vec![Node::Raw(out)]
@@ -575,7 +582,7 @@ fn mutate_tree(rng: &mut Rng, root: &mut Node) -> &'static str {
         }
         9 => {
             let i = rng.below(kids.len() as u64 + 1) as usize;
-            kids.insert(i, Node::Raw(rng.pick(&[&b" "[..], b"\n", b"\t\r\n ", b"junk", b"\xef\xbb\xbf", b"\xff", b"]]>"]).to_vec()));
+            kids.insert(i, Node::Raw(rng.pick(&[&b" "[..], b"\n", b"\t\r\n ", b"junk", b"\xef\xbb\xbf", b"\xff", b"]]>", b"\x01", b"\xef\xbf\xbe"]).to_vec()));
             "ins-text"
         }
         10 => {
@@ -651,6 +658,7 @@ fn generate(rng: &mut Rng, n: u64, tier: &str, emit: &mut dyn FnMut(Vec<String>)
     let canon = Gen { tables: &tables, style: Style::Canon, sdk_attr: false, layout_free: false };
     let free = Gen { tables: &tables, style: Style::Free, sdk_attr: false, layout_free: true };
     let sdk = Gen { tables: &tables, style: Style::Canon, sdk_attr: true, layout_free: false };
+    let wild = Gen { tables: &tables, style: Style::Wild, sdk_attr: false, layout_free: true };
 
     // S1: deterministic sweep — every type: minimal, maximal, each member left out, each member twice
     for ty in &both {
@@ -671,6 +679,9 @@ fn generate(rng: &mut Rng, n: u64, tier: &str, emit: &mut dyn FnMut(Vec<String>)
                 render(&free.document(rng, ty, p), &mut out);
                 put(ty, &out);
             }
+            let mut out = Vec::new();
+            render(&wild.document(rng, ty, &Plan::Max), &mut out);
+            put(ty, &out);
         }
     }
     // S7: documents the way an SDK writes `Grantee` (xsi:type as attribute), for the types that contain it
@@ -688,13 +699,14 @@ fn generate(rng: &mut Rng, n: u64, tier: &str, emit: &mut dyn FnMut(Vec<String>)
         let ty = &both[rng.below(both.len() as u64) as usize];
         let g = match k % 10 {
             0 | 1 | 2 => &canon,
+            5 => &wild,
             _ => &free,
         };
         let mut tree = g.document(rng, ty, &Plan::Random);
         let mut out = Vec::new();
         match k % 10 {
-            0 | 1 | 3 | 4 => {}
-            2 | 5 | 6 | 7 => {
+            0 | 1 | 3 | 4 | 5 => {}
+            2 | 6 | 7 => {
                 for _ in 0..rng.range(1, 2) {
                     mutate_tree(rng, &mut tree);
                 }
